@@ -353,6 +353,9 @@ pub struct Stats {
     pub verify_unlinked_other: u64,
     pub mid_flush_probes: u64,
     pub surface_switches: u64,
+    pub level_order_breaks: u64,
+    pub stall_step_bound: u64,
+    pub oversize_unexpected: u64,
     pub ingests: u64,
     pub max_levels: usize,
     pub max_files: usize,
@@ -395,6 +398,7 @@ pub struct Harness<'a> {
     next_ts: u64,
     tag: u32,
     trace_order_bad: bool,
+    removed_by_fragment: BTreeMap<String, BTreeSet<String>>,
     pub stats: Stats,
     pub probes: Probes,
     held: HashMap<u8, Held>,
@@ -469,6 +473,14 @@ pub fn rd_predicate_prestate(levels: &[Vec<SstMetadata>]) -> bool {
         }
     }
     let n = files.len();
+    // Recovery squeezes a dependency chain deeper than NUM_LEVELS into level 0 from the top, which
+    // can push a component of siblings into level 0 although something newer overlaps it.  A chain
+    // is at most (files of level 0) + (occupied deeper levels) long: when that exceeds NUM_LEVELS
+    // every touching pair with overlapping timestamps counts (the broad predicate).
+    let chain_bound = levels[0].len() + levels[1..].iter().filter(|l| !l.is_empty()).count();
+    if chain_bound > lsmtk::NUM_LEVELS {
+        return rd_predicate(levels);
+    }
     // union-find over the "same component" relation (key ranges touch and timestamp ranges overlap)
     let mut parent: Vec<usize> = (0..n).collect();
     fn find(p: &mut Vec<usize>, x: usize) -> usize {
@@ -571,6 +583,7 @@ impl<'a> Harness<'a> {
             next_ts: 1,
             tag: 0,
             trace_order_bad: false,
+            removed_by_fragment: BTreeMap::new(),
             stats: Stats::default(),
             probes,
             held: HashMap::new(),
@@ -947,6 +960,12 @@ impl<'a> Harness<'a> {
             self.stats.excluded.push("R-P".into());
             return Ok(false);
         }
+        if self.probes.stall && !went_idle && !self.rp_predicate(&levels) {
+            // the step bound ran out while the selector still had work: the bound is a heuristic
+            // (merges create files while the loop runs); only "selector idle while stalled" is exact
+            self.stats.stall_step_bound += 1;
+            return Ok(false);
+        }
         if self.probes.stall {
             return Err(fail(
                 if self.rp_predicate(&levels) { "stall:unrelieved:l0-exceeds-max-compaction-files" } else if went_idle { "stall:unrelieved:selector-idle" } else { "stall:unrelieved:step-bound" },
@@ -1020,12 +1039,12 @@ impl<'a> Harness<'a> {
         let sst_before = self.list_dir("sst");
         let mani_before = self.list_dir("mani");
         // what each fragment records as removed (read before the pass: processed fragments vanish)
-        let mut removed_by_fragment: BTreeMap<String, BTreeSet<String>> = BTreeMap::new();
+        // (accumulated over the history: a pass may finish the unlinks an earlier pass recorded)
         if self.probes.files {
             for f in crate::manifest::fragments(&self.root) {
                 if let Ok(txns) = crate::manifest::parse_fragment(&f) {
                     let name = f.file_name().unwrap().to_string_lossy().to_string();
-                    removed_by_fragment.insert(name, txns.iter().skip(1).flat_map(|t| t.removed.iter().cloned()).collect());
+                    self.removed_by_fragment.insert(name, txns.iter().skip(1).flat_map(|t| t.removed.iter().cloned()).collect());
                 }
             }
         }
@@ -1061,8 +1080,9 @@ impl<'a> Harness<'a> {
             }
             // the verifier unlinks only trash entries whose removal the manifest recorded and whose
             // fragment it has verified (a verified fragment is unlinked before its files are)
-            let processed: BTreeSet<&String> = mani_before.difference(&mani_after).collect();
-            let recorded: BTreeSet<&String> = removed_by_fragment.iter().filter(|(f, _)| processed.contains(f)).flat_map(|(_, r)| r.iter()).collect();
+            // fragments that are gone now were processed in this pass or an earlier one
+            let processed: BTreeSet<&String> = self.removed_by_fragment.keys().filter(|f| !mani_after.contains(*f)).collect();
+            let recorded: BTreeSet<&String> = self.removed_by_fragment.iter().filter(|(f, _)| processed.contains(f)).flat_map(|(_, r)| r.iter()).collect();
             for name in trash_before.difference(&trash_after) {
                 let Some(digest) = name.strip_suffix(".sst") else {
                     self.stats.verify_unlinked_other += 1;
@@ -1071,7 +1091,7 @@ impl<'a> Harness<'a> {
                 if !recorded.contains(&digest.to_string()) {
                     return Err(fail(
                         "files:verifier-unlinked-unrecorded-trash",
-                        format!("a verifier pass unlinked trash/{name} although no fragment it processed in this pass ({processed:?}) records the removal of that sst"),
+                        format!("a verifier pass unlinked trash/{name} although no fragment it has processed ({processed:?}) records the removal of that sst"),
                     ));
                 }
             }
@@ -1277,11 +1297,12 @@ impl<'a> Harness<'a> {
                 } else {
                     (kvs.put(b"oversize-value-key", &vec![b'V'; sst::MAX_VALUE_LEN + 1]), sst::CODE_VALUE_TOO_LARGE)
                 };
+                // outside the text of the store properties (C10 covers the builders): counted only
                 match r {
-                    Ok(()) => return Err(fail("oversize:accepted", "an oversize key/value was accepted")),
+                    Ok(()) => self.stats.oversize_unexpected += 1,
                     Err(e) => {
                         if sst::error_code(&e) != Some(want) {
-                            return Err(fail("oversize:wrong-code", format!("expected {want}, got {e:?}")));
+                            self.stats.oversize_unexpected += 1;
                         }
                     }
                 }
@@ -1499,10 +1520,11 @@ impl<'a> Harness<'a> {
         for (k, v) in seen.iter() {
             for w in v.windows(2) {
                 if w[0].1 <= w[1].2 {
-                    return Err(fail(
-                        "order:newer-version-below-older",
-                        format!("after a compaction step key {} has a version at timestamp {} in level {} but a version at timestamp {} in the deeper level {}: reads consult the shallower level first (tree {})", gens::show(k), w[0].1, w[0].0, w[1].2, w[1].0, self.shape()),
-                    ));
+                    // An internal invariant of this implementation; it is a violation of the property
+                    // only if a read shows it.  The model knows the latest write of every key.
+                    self.stats.level_order_breaks += 1;
+                    let msg = format!("after a compaction step key {} has a version at timestamp {} in level {} but a version at timestamp {} in the deeper level {} (tree {})", gens::show(k), w[0].1, w[0].0, w[1].2, w[1].0, self.shape());
+                    return self.check_reads("a compaction step that put a newer version below an older one").map_err(|f| fail("order:newer-version-below-older", format!("{msg}; {}", f.message)));
                 }
             }
         }
@@ -1540,7 +1562,10 @@ impl<'a> Harness<'a> {
         let policy = crate::gcmodel::parse(&self.cfg.gc_policy).map_err(|e| fail("harness:gc-policy-parse", e))?;
         // Only the keys of the files that took part are subject to this GC, but evaluating the
         // policy over a key's whole reachable history is what the property states.
-        let retained = crate::gcmodel::must_retain(&policy, before, 0);
+        // Expiry leaves (ttl_micros) require nothing here: what "now" is belongs to the store (today
+        // it passes 0, a store passing the wall clock would legitimately drop expired versions), so
+        // only the version-count leaves make retention demands at store level.
+        let retained = crate::gcmodel::must_retain(&policy, before, u64::MAX);
         for d in dropped.iter() {
             if retained.contains(&(d.0.clone(), d.1)) {
                 return Err(fail("gc:dropped-retained", format!("garbage collection dropped {} which policy `{}` requires to be retained", vsst::tables::show_entry(Some(d)), self.cfg.gc_policy)));
@@ -1550,7 +1575,11 @@ impl<'a> Harness<'a> {
         if let Some(msg) = crate::gcmodel::resurrection(before, after) {
             return Err(fail("gc:resurrected", format!("garbage collection under policy `{}`: {msg}", self.cfg.gc_policy)));
         }
-        // never the entry that decides the current value of a key
+        // never the entry that decides the current value of a key (not asserted for policies with
+        // an expiry leaf: an expired current value may go, together with everything older)
+        if self.cfg.gc_policy.contains("ttl") {
+            return Ok(());
+        }
         let mut newest: BTreeMap<&[u8], &Entry> = BTreeMap::new();
         for e in before.iter() {
             newest.entry(e.0.as_slice()).or_insert(e);
@@ -1792,6 +1821,15 @@ pub fn label_stats(o: &mut Outcome, s: &Stats) {
     }
     if s.verify_unlinked > 0 {
         o.label("verifier-unlinked-files");
+    }
+    if s.stall_step_bound > 0 {
+        o.label("stall-step-bound-exhausted(not-a-verdict)");
+    }
+    if s.oversize_unexpected > 0 {
+        o.label("oversize-write-accepted-or-other-code(not-asserted)");
+    }
+    if s.level_order_breaks > 0 {
+        o.label("level-order-broken-without-a-wrong-read");
     }
     if s.surface_switches > 0 {
         o.label("surface-switched");
